@@ -27,17 +27,23 @@ from ..core.loader import AnalysisError
 def check_closure_idioms(ctx, extra_roots=()):
     from .idioms import (check_shared_mutable, check_abs_of_extremum,
                          check_narrowing_cast, check_inplace_float_store,
-                         check_truthy_position, check_jump_in_finally)
+                         check_truthy_position, check_jump_in_finally,
+                         check_partially_empty_return,
+                     check_sentinel_codes_gather,
+                         check_sentinel_codes_gather)
     from .h5names import check_h5_names_created_once
     from .scatter import check_pointer_scatter
     from .tiling import (check_tiling, check_whole_axis,
                          check_window_writes, check_buffer_windows,
-                         check_store_advances)
+                         check_store_advances, check_batch_search,
+                     check_copy_not_filtered_by_content,
+                         check_copy_not_filtered_by_content)
     from .perm import (check_request_order, check_unsort_pairs,
                        check_sorted_results_unsorted)
     from .nodekeys import check_memo_keys
     from .capacity import (check_index_dtype, check_borrowed_dtype,
-                           check_sum_capacity, check_bound_kind)
+                           check_sum_capacity, check_bound_kind,
+                           check_index_arithmetic_widened)
     from . import cursors as CU
     db = ctx.db
     seeds = [q for q in sorted(ctx.functions_analysed)
@@ -59,15 +65,20 @@ def check_closure_idioms(ctx, extra_roots=()):
             continue
         n_fn += 1
         for rule in (check_shared_mutable, check_abs_of_extremum,
+                     check_partially_empty_return,
+                     check_sentinel_codes_gather,
                      check_truthy_position, check_jump_in_finally,
                      check_narrowing_cast, check_inplace_float_store,
                      check_h5_names_created_once, check_pointer_scatter,
                      check_whole_axis, check_request_order,
                      check_unsort_pairs, check_sorted_results_unsorted,
                      check_memo_keys, check_index_dtype, check_borrowed_dtype,
-                     check_sum_capacity, check_bound_kind, check_tiling,
+                     check_sum_capacity, check_bound_kind,
+                     check_index_arithmetic_widened, check_tiling,
                      check_window_writes, check_buffer_windows,
-                     check_store_advances, CU.check_cursors,
+                     check_store_advances, check_batch_search,
+                     check_copy_not_filtered_by_content,
+                     CU.check_cursors,
                      CU.check_advance):
             try:
                 rule(ctx, fi)
